@@ -2,6 +2,13 @@
 
 package dns_naming
 
+import (
+	"bufio"
+	"net/http"
+
+	"github.com/irai/packet"
+)
+
 // Contracts for the byte-level helpers of the naming handler (C08): total on arbitrary bytes.
 
 func verif_inv_dns_naming_parseNodeNameArray_1(b []byte, n int, i int) bool {
@@ -26,3 +33,26 @@ func verif_lemma_nbns_nodestatus_total(b []byte) {
 	vCanary()
 	_, _ = processNBNSNodeStatusResponse(b)
 }
+
+// http.ReadRequest (standard library, TRUSTED): total; a nil error comes with a non-nil request.
+func verif_extern_http_ReadRequest(b *bufio.Reader) (*http.Request, error) {
+	req, err := http.ReadRequest(b)
+	vEnsures(err != nil || req != nil)
+	return req, err
+}
+
+// processSSDPNotify: returns for every byte string (the HTTP parser, header lookup and string
+// splitting are abstracted: any header values, any split result).
+//
+//verif:props C08
+func verif_contract_dns_naming_processSSDPNotify(raw []byte) (packet.NameEntry, string, error) {
+	vCanary()
+	vModifiesHeap()
+	n, loc, err := processSSDPNotify(raw)
+	return n, loc, err
+}
+
+func verif_inv_dns_naming_processSSDPNotify_1(options []string, i int) bool {
+	return 0 <= i && i <= len(options)
+}
+func verif_dec_dns_naming_processSSDPNotify_1(options []string, i int) int { return len(options) - i }
